@@ -2044,6 +2044,16 @@ def merge_vals(c, a, b):
         return Opaque("ite(%s)" % c.key())
     if a is b:
         return a
+    # `if S.is_empty() { vec![] } else { filter of S }`: the filter of an empty sequence is empty, so the selection is the filter itself
+    for emp, oth, cc in ((a, b, c), (b, a, None)):
+        fo = getattr(oth, "filter_of", None)
+        if getattr(emp, "items", None) == [] and fo is not None and isinstance(oth, Arr):
+            try:
+                ck = (cc if cc is not None else c.negate()).key()
+            except Exception:
+                continue
+            if ck == "empty(%s)" % (fo[0].classes[0],):
+                return oth
     raise Undecided("merging %r and %r under a condition" % (a, b))
 
 
